@@ -81,6 +81,31 @@ SPECS = [
     dict(file='calendar.py', cls='WeeklyCalendar', func='__check_working_days', coq_name='src_check_working_days',
          params={'working_days': ('working_days', ('option', ('list', 'Z')))},
          signature=[('working_days', ('option', ('list', 'Z')))], ret='unit'),
+    # WeeklyCalendar.__init__, once per form of the arguments (the `type(...) is ...` tests are decided by the form): the week
+    # table it builds, as a list read with nth afterwards (src_weekly_units)
+    dict(file='calendar.py', cls='WeeklyCalendar', func='__init__', coq_name='src_weekly_init_days',
+         params={'start': ('start', ('option', 'Z')), 'end': ('end_', ('option', 'Z')), 'days': ('days', ('list', 'Z')),
+                 'units_per_day': ('units_per_day', 'num')},
+         signature=[('start', ('option', 'Z')), ('end_', ('option', 'Z')), ('days', ('list', 'Z')), ('units_per_day', 'num')],
+         ret=('list', 'num'), locals={'tbl': ('list', 'num')},
+         table_fields={'self.__day_hours': ('tbl', ('list', 'num'))}, result_field='self.__day_hours',
+         stores={'self.__start': 'start', 'self.__end': 'end'},
+         expr_rewrites={'type(units_per_day) is float or type(units_per_day) is int': ('true', 'bool'),
+                        'type(units_per_day) is dict': ('false', 'bool')},
+         calls={'WeeklyCalendar.__check_working_days': ('apply', 'src_check_working_days', ('fun', [('option', ('list', 'Z'))], 'unit', True), [0]),
+                'WeeklyCalendar.__check_start_end': ('apply', 'src_check_start_end', ('fun', [('option', 'Z'), ('option', 'Z')], 'unit', True), [0, 1])}),
+    dict(file='calendar.py', cls='WeeklyCalendar', func='__init__', coq_name='src_weekly_init_dict',
+         params={'start': ('start', ('option', 'Z')), 'end': ('end_', ('option', 'Z')), 'days': ('None', 'none'),
+                 'units_per_day': ('units_per_day', ('assoc', 'Z', 'num'))},
+         signature=[('start', ('option', 'Z')), ('end_', ('option', 'Z')), ('units_per_day', ('assoc', 'Z', 'num'))],
+         ret=('list', 'num'), locals={'tbl': ('list', 'num'), 'val': 'num'},
+         table_fields={'self.__day_hours': ('tbl', ('list', 'num'))}, result_field='self.__day_hours',
+         stores={'self.__start': 'start', 'self.__end': 'end'},
+         expr_rewrites={'type(units_per_day) is float or type(units_per_day) is int': ('false', 'bool'),
+                        'type(units_per_day) is dict': ('true', 'bool'),
+                        'list(units_per_day.keys())': ('(map fst ${units_per_day})', ('list', 'Z'))},
+         calls={'WeeklyCalendar.__check_working_days': ('apply', 'src_check_working_days', ('fun', [('option', ('list', 'Z'))], 'unit', True), [0]),
+                'WeeklyCalendar.__check_start_end': ('apply', 'src_check_start_end', ('fun', [('option', 'Z'), ('option', 'Z')], 'unit', True), [0, 1])}),
     dict(file='resource.py', cls='Resource', func='get_available_units', coq_name='src_resource_units',
          fields={'self.calendar': ('calendar', CALFN)},
          params={'date': ('date', 'Z')}, ignored_params=('task',),
